@@ -32,7 +32,9 @@ StealCases == {[kind |-> "steal", how |-> h, state |-> st, method |-> m] :
                  h \in {"ip", "conn"}, st \in States, m \in {"PLAY", "PAUSE", "TEARDOWN", "SETUP", "GET_PARAMETER"}}
 \* "conn" applies while the session streams over an interleaved connection
 ValidSteal == {c \in StealCases : c.how = "conn" => c.state \in {"play", "record"}}
-KeepCases == {[kind |-> "keepalive", src |-> r, state |-> st] : r \in Srcs, st \in {"play", "record"}}
+\* liveness bookkeeping on either side: the server's session timeouts, the client's UDP timeout
+KeepCases == {[kind |-> "keepalive", side |-> "server", src |-> r, state |-> st] : r \in Srcs, st \in {"play", "record"}}
+             \cup {[kind |-> "keepalive", side |-> "client", src |-> r, state |-> "play"] : r \in Srcs}
 
 Delivered(c) == IF c.side = "server" THEN ServerDelivers(c.src) ELSE ClientDelivers(c.src, c.anyPort, c.firstSeen)
 
